@@ -901,7 +901,6 @@ class TestResult(unittest.TestResult):
         self.count = count
         self._stdout_buffer = None
         self._stderr_buffer = None
-        self._std_streams_buffered = False
         self._original_stdout = sys.stdout
         self._original_stderr = sys.stderr
 
@@ -948,23 +947,26 @@ class TestResult(unittest.TestResult):
                 self._stderr_buffer = self._makeBufferedStdStream()
             sys.stdout = self._stdout_buffer
             sys.stderr = self._stderr_buffer
-            self._std_streams_buffered = True
 
     def _restoreStdStreams(self):
         """Restore the buffered standard streams and return any contents."""
-        if self.options.buffer and self._std_streams_buffered:
+        if self.options.buffer:
             # A test can produce several result events (e.g. an error in
-            # the test and another one in tearDown); only the first one
-            # finds the buffered streams installed.
-            self._std_streams_buffered = False
-            stdout = self._stdout_buffer.getvalue()
-            stderr = self._stderr_buffer.getvalue()
+            # the test and another one in tearDown), and test code may
+            # have replaced ``sys.stdout`` itself or put a saved one back
+            # (``contextlib.redirect_stdout``): whatever is installed now,
+            # hand over what was captured and restore the originals.
+            stdout = stderr = None
+            if self._stdout_buffer is not None:
+                stdout = self._stdout_buffer.getvalue()
+            if self._stderr_buffer is not None:
+                stderr = self._stderr_buffer.getvalue()
             sys.stdout = self._original_stdout
             sys.stderr = self._original_stderr
-            self._stdout_buffer.seek(0)
-            self._stdout_buffer.truncate(0)
-            self._stderr_buffer.seek(0)
-            self._stderr_buffer.truncate(0)
+            for stream in (self._stdout_buffer, self._stderr_buffer):
+                if stream is not None:
+                    stream.seek(0)
+                    stream.truncate(0)
             return stdout, stderr
         else:
             return None, None
